@@ -32,7 +32,7 @@ ASSUMPTIONS = [
     "Output-interface preservation is asserted for jax and torch only: autograd functions legitimately return plain numpy arrays outside of a differentiation trace.",
     "When an interface returns a lower precision (e.g. torch builds float32 from Python floats) the 32-bit tolerance applies to that comparison.",
 ]
-BUDGET = {"quick": {"examples": 250}, "thorough": {"examples": 200000, "shards": 16}}
+BUDGET = {"quick": {"examples": 250}, "thorough": {"examples": 20000, "shards": 16}}
 IFACES = ("numpy", "autograd", "jax", "torch")
 
 SHAPES = [(3,), (2, 3), (4, 4), (2, 2, 2), (), (1,), (3, 1), (4,)]
